@@ -23,7 +23,7 @@ func C15(c *Ctx) {
 	r := c.R
 	r.Explain = "Structural clauses of C15 decided on the SSA form of pkg/radius/coa.go: (D1) every call that can reach a session-changing handler or a datagram send is dominated by the true outcome of the authenticator check and those functions have no other callers; (D2) the check hashes code|id|len, 16 zero bytes, attributes, secret in that order and compares every byte; (D3) the verified slice is buf[:length] with 20 <= length <= n proved; (D4) the response carries the request identifier and a response authenticator over the request authenticator; (D5) handlers only see attributes parsed from the verified bytes.  MD5 arithmetic and 'for all secrets' are not decided."
 	r.Rule("C15.D1.gate", "in the CoA receive loop every call that may reach a handler invocation or a UDP send is dominated by verifyRequestAuthenticator(...) == true", 2)
-	r.Rule("C15.D1.callers", "functions that invoke a CoA/Disconnect handler or send on the CoA socket are called only from the gated receive loop chain", 5)
+	r.Rule("C15.D1.callers", "functions that invoke a CoA/Disconnect handler or send on the CoA socket are called only from the gated receive loop chain", 3)
 	r.Rule("C15.D2.hash", "request authenticator = MD5(packet[:4] | 16 zero bytes | packet[20:] | secret), writes unconditional and in this order", 1)
 	r.Rule("C15.D2.compare", "verification returns true only after every byte of the received authenticator was compared equal with the digest", 1)
 	r.Rule("C15.D3", "the datagram handed to verification is buf[:length] with 20 <= length <= bytes received, and the authenticator is buf[4:20] of the same buffer", 3)
@@ -334,7 +334,12 @@ func sameSliceBase(a, b ssa.Value) bool {
 }
 
 // fieldOrigin: T.f when v is (a φ-free copy of) a value loaded from a struct field.
-func fieldOrigin(v ssa.Value) string {
+func fieldOrigin(v ssa.Value) string { return fieldOriginD(v, 0) }
+
+func fieldOriginD(v ssa.Value, depth int) string {
+	if depth > 8 {
+		return ""
+	}
 	for i := 0; i < 4; i++ {
 		if s := flow.FieldOwner(v); s != "" {
 			return s
@@ -349,7 +354,7 @@ func fieldOrigin(v ssa.Value) string {
 				if c, ok := e.(*ssa.Const); ok && c.Value == nil {
 					continue
 				}
-				fo := fieldOrigin(e)
+				fo := fieldOriginD(e, depth+1)
 				if fo == "" || (s != "" && s != fo) {
 					return ""
 				}
@@ -679,44 +684,56 @@ func c15Response(c *Ctx, loop, send *ssa.Function, S map[*ssa.Function]string, b
 			r.Check("C15.D4", fn, name+" chain", c.P.Pos(send.Pos()), false, "no call chain from the receive loop found")
 		}
 	}
-	// response codes: ACK only on the Success branch, request kind preserved
-	for _, spec := range []struct {
-		fn       string
-		ack, nak int64
-	}{{"sendCoAResponse", 44, 45}, {"sendDisconnectResponse", 41, 42}} {
-		f := c.fn("pkg/radius", "CoAServer", spec.fn)
-		if f == nil {
-			continue
+	// response codes: ACK only on the Success branch, request kind preserved.  Call-site driven (every caller of the
+	// response sender in the package, through pass-through wrappers), so the rule does not depend on which function
+	// the ACK/NAK selection lives in; the expected pair follows from the response type whose Success flag is tested.
+	pairs := map[string][2]int64{"CoAResponse.Success": {44, 45}, "DisconnectResponse.Success": {41, 42}}
+	var codeSites func(g *ssa.Function, argIdx int, depth int)
+	seenSite := map[ssa.Instruction]bool{}
+	codeSites = func(g *ssa.Function, argIdx int, depth int) {
+		node := cg.Nodes[g]
+		if node == nil || depth > 4 {
+			return
 		}
-		for _, call := range flow.Calls(f) {
-			if call.Common().StaticCallee() != send {
+		for _, e := range node.In {
+			if e.Site == nil || e.Site.Common().StaticCallee() != g || seenSite[e.Site] {
 				continue
 			}
-			ci := paramIndex(send, role["code"])
-			ok, why := false, "response code is not a φ of the ACK/NAK constants selected by resp.Success"
-			if ci >= 0 {
-				if phi, isPhi := call.Common().Args[ci].(*ssa.Phi); isPhi && len(phi.Edges) == 2 {
-					ok = true
-					for i, ed := range phi.Edges {
-						k, isC := constInt(ed)
-						pred := phi.Block().Preds[i]
-						// which branch of the Success test leads here?
-						succ := successBranch(pred, phi.Block())
-						switch {
-						case !isC:
-							ok = false
-						case succ == 1 && k != spec.ack:
-							ok, why = false, fmt.Sprintf("Success branch sends code %d, want %d", k, spec.ack)
-						case succ == 0 && k != spec.nak:
-							ok, why = false, fmt.Sprintf("failure branch sends code %d, want %d", k, spec.nak)
-						case succ == -1:
-							ok, why = false, "cannot relate the code to the Success test"
-						}
+			seenSite[e.Site] = true
+			caller := e.Caller.Func
+			args := e.Site.Common().Args
+			if argIdx >= len(args) {
+				continue
+			}
+			arg := args[argIdx]
+			if cp, isP := arg.(*ssa.Parameter); isP {
+				codeSites(caller, paramIndex(caller, cp), depth+1)
+				continue
+			}
+			ok, why := false, "response code is not a φ of the ACK/NAK constants selected by the response's Success flag"
+			if phi, isPhi := arg.(*ssa.Phi); isPhi && len(phi.Edges) == 2 {
+				ok = true
+				for i, ed := range phi.Edges {
+					k, isC := constInt(ed)
+					succ, field := successBranch(phi.Block().Preds[i], phi.Block())
+					want, known := pairs[field]
+					switch {
+					case !isC:
+						ok = false
+					case succ == -1 || !known:
+						ok, why = false, "cannot relate the code to the Success test of a CoA or Disconnect response"
+					case succ == 1 && k != want[0]:
+						ok, why = false, fmt.Sprintf("Success branch sends code %d, want %d", k, want[0])
+					case succ == 0 && k != want[1]:
+						ok, why = false, fmt.Sprintf("failure branch sends code %d, want %d", k, want[1])
 					}
 				}
 			}
-			r.Check("C15.D4", load.ShortFunc(f), "ACK iff Success", c.P.Pos(instrPos(call)), ok, why)
+			r.Check("C15.D4", load.ShortFunc(caller), "ACK iff Success", c.P.Pos(instrPos(e.Site)), ok, why)
 		}
+	}
+	if ci := paramIndex(send, role["code"]); ci >= 0 {
+		codeSites(send, ci, 0)
 	}
 }
 
@@ -732,20 +749,24 @@ func paramIndex(f *ssa.Function, p *ssa.Parameter) int {
 }
 
 // successBranch: 1 when block b (a predecessor of join) lies on the true side of an If testing a field named
-// Success, 0 on the false side, -1 unknown.
-func successBranch(b, join *ssa.BasicBlock) int {
-	for x := b; x != nil; x = x.Idom() {
-		for _, ft := range flow.FactsAt(x) {
-			if fo := flow.FieldOwner(ft.Cond); strings.HasSuffix(fo, ".Success") {
-				if ft.Pol {
-					return 1
-				}
-				return 0
-			}
-		}
-		break
+// Success, 0 on the false side, -1 unknown; also the owner of that field ("CoAResponse.Success").
+func successBranch(b, join *ssa.BasicBlock) (int, string) {
+	facts := flow.FactsAt(b)
+	if ef, ok := flow.EdgeFact(b, join); ok {
+		facts = append(facts, ef)
 	}
-	return -1
+	for _, ft := range facts {
+		if fo := flow.FieldOwner(ft.Cond); strings.HasSuffix(fo, ".Success") {
+			if i := strings.LastIndex(fo[:len(fo)-len(".Success")], "."); i >= 0 {
+				fo = fo[i+1:]
+			}
+			if ft.Pol {
+				return 1, fo
+			}
+			return 0, fo
+		}
+	}
+	return -1, ""
 }
 
 // bufferEscapes checks that no value aliasing buf (slices of it, and parameters they are passed to, through
